@@ -142,6 +142,7 @@ def prePartial (r : RangeAst) (v : SemVerAst) : Bool :=
 def classes (r : RangeAst) (v : SemVerAst) : List String :=
   (if NpmRange.pre000 v then (if NpmRange.lt0pre r then ["F-C03-lt0pre"] else ["F-C03-pre000"]) else []) ++
   (if NpmRange.gtSuccPre r v then ["F-C03-gt-succ-pre"] else []) ++
+  (if NpmRange.signedIdent r v then ["F-C03-signed-ident"] else []) ++
   (if prePartial r v then ["F-C03-cargo-pre-partial"] else [])
 
 end CargoReq
